@@ -39,16 +39,25 @@ func ZZ_C05_int() {
 		if typ == zzA {
 			limit = 127
 		}
+		beyond := edge == 4
+		if edge >= 3 {
+			// literals around and beyond 2^64 (what strconv reports as a range error with a clamped value):
+			// edge 3 straddles 2^64-1, edge 4 is one digit longer than 2^64-1
+			limit, edge = ^uint64(0), 1
+		}
 		pw := uint64(1)
 		for i := 0; i < edge; i++ {
 			pw *= uint64(base)
 		}
 		pre := limit / pw
 		preStr := strconv.FormatUint(pre, base)
+		if beyond {
+			preStr = strconv.FormatUint(limit, base)
+		}
 		tail, tv, _ := zzDigits("d", edge, base)
 		digits = preStr + tail
 		hi := pre > (^uint64(0)-tv)/pw
-		huge = hi
+		huge = rt.Or(hi, beyond)
 		val = pre*pw + tv
 		if pre == 0 {
 			rt.Assume(tail[0] != '0')
@@ -372,6 +381,33 @@ func ZZ_C05_follow() {
 	} else {
 		rt.Assert(len(msgs) == 0, "follow:no-message")
 	}
+	rt.Reach("end")
+}
+
+// ZZ_C05_signs: a sign that no digit follows (alone, doubled, at the end of the item) denotes
+// no value: three characters drawn from {+, -, blank, 1..9} behind a literal 5; whenever one of
+// them is a sign not directly followed by a digit, the text is rejected and holds no message.
+func ZZ_C05_signs() {
+	typ := zzTypes[rt.Param("typ")]
+	var b [3]byte
+	bad := false
+	for i := range b {
+		c := rt.Byte(rt.N("c", i))
+		rt.Assume(rt.Or(rt.Or(c == '+', c == '-'), rt.Or(c == ' ', rt.And(c >= '1', c <= '9'))))
+		b[i] = c
+	}
+	for i := range b {
+		sign := rt.Or(b[i] == '+', b[i] == '-')
+		digitNext := false
+		if i+1 < len(b) {
+			digitNext = rt.And(b[i+1] >= '1', b[i+1] <= '9')
+		}
+		bad = rt.Or(bad, rt.And(sign, !digitNext))
+	}
+	rt.Assume(bad)
+	msgs, errs, _ := Parse("S1F1\n<" + typ + " 5 " + string(b[:]) + ">\n.")
+	rt.Assert(len(errs) > 0, "signs:sign-without-digit-rejected")
+	rt.Assert(len(msgs) == 0, "signs:no-message")
 	rt.Reach("end")
 }
 
